@@ -1,4 +1,5 @@
 import Originium.Model.DBProofs
+import Originium.Model.LevelTie
 /-! # C02 — Close and reopen preserve the committed state; the store stays writable -/
 namespace Props
 open Key VKey Table Levels Compact LSM DB
@@ -160,7 +161,20 @@ theorem C02_still_writable (bs : Nat) (s s' s'' : St) (h : Inv s) (hr : reopen b
   rw [hr] at hs2; injection hs2 with hs2; subst hs2
   exact inv_foldlM hinv2 more hm
 
+
+/-- the Go code itself (`levelManager.maxLevelIdx`, translated from /repo/level.go on every run): the index
+    `maxLevelIdx + 1` that names the next table written into a level — by a flush, an L0 or an LN compaction, also right
+    after a recovery, in whatever order the handles of the level are listed — is above the index of every table the level
+    holds, so writing the new table never replaces a live one -/
+theorem C02_code_fresh_table_name (idxs : List Int) :
+    (∀ x ∈ idxs, x < GenLevel.maxLevelIdx idxs + 1) ∧ GenLevel.maxLevelIdx [] + 1 = 0 :=
+  ⟨LevelTie.maxLevelIdx_fresh idxs, by rw [LevelTie.maxLevelIdx_empty]; rfl⟩
+
+/-- non-vacuity: handles listed as a recovery lists them (`0-10` before `0-2`) -/
+example : GenLevel.maxLevelIdx [0, 1, 10, 11, 2, 9] + 1 = 12 := by decide
+
 #print axioms C02_reopen
 #print axioms C02_reopen_reads
 #print axioms C02_still_writable
+#print axioms C02_code_fresh_table_name
 end Props
